@@ -267,6 +267,27 @@ static void layout_item(long i)
  * threshold differently */
 static const size_t BIGSZ[] = { 65536, 65537, 1048576, 2097151, 2097152, 2097153, 3145735, 4194304 + 5, 16777216 + 9, 67108864 + 1 };
 static void layout_big(long i) { layout_size((long) BIGSZ[i]); }
+/* histories with library calls between allocation and release: initialising again (legal, returns 1), stirring and closing the random source,
+ * another allocation - the canary and layout of a live block must stay valid */
+static void child_history(void *a)
+{
+    int mode = *(int *) a; unsigned char *p = sodium_malloc(100), *q2 = NULL; unsigned char b[8];
+    signal(SIGSEGV, SIG_DFL); signal(SIGABRT, SIG_DFL);
+    memset(p, 7, 100);
+    if (mode & 1) { if (sodium_init() != 1) _exit(3); }
+    if (mode & 2) { randombytes_stir(); randombytes_buf(b, 8); }
+    if (mode & 4) { q2 = sodium_malloc(5000); if (sodium_init() != 1) _exit(3); }
+    if (mode & 8) { randombytes_close(); randombytes_buf(b, 8); }
+    if (mode & 16) sodium_mprotect_readonly(p);
+    sodium_free(p); if (q2) sodium_free(q2);
+    _exit(0);
+}
+static void histories(void)
+{
+    int mode, st; char key[96];
+    for (mode = 1; mode < 32; mode++) { st = in_child(child_history, &mode); n_eval++; n_nontriv++;
+        if (!(WIFEXITED(st) && WEXITSTATUS(st) == 0)) { snprintf(key, sizeof key, "sodium_free/after-history/mode=%d", mode); vf_fail(key, "releasing an untouched block failed (status %#x) after: %s%s%s%s%s", st, mode & 1 ? "sodium_init again; " : "", mode & 2 ? "stir + randombytes; " : "", mode & 4 ? "second allocation + sodium_init; " : "", mode & 8 ? "randombytes_close + randombytes; " : "", mode & 16 ? "mprotect_readonly" : ""); } }
+}
 static void allocarray_big(long i)
 {
     static const size_t CNT[4] = { 3, 1025, 65537, 1 }; size_t cnt = CNT[i & 3], sz = BIGSZ[(i >> 2) % 10] / cnt + 1, k; unsigned char *p = sodium_allocarray(cnt, sz); char key[96];
@@ -286,6 +307,7 @@ int main(void)
     vf_parallel(16, 0, (long) ((thorough ? 8 : 3) * PG + 2), layout_item, fin);
     vf_parallel(12, 0, 12, protect_size, fin);
     vf_parallel(16, 0, 16, canary_structured, fin);
+    histories(); fin();
     vf_parallel(10, 0, 10, layout_big, fin);
     vf_parallel(16, 0, 40, allocarray_big, fin);
     limits(); fin();
